@@ -27,6 +27,12 @@ def scenario_key(r):
     return r.get("key", "")
 
 def finish_build(chk, proof, info, disagree, oracle_fail, n):
+    # the model as the theorems see it (vm_compute inside Coq) against the model as the correspondence runs it (extracted OCaml)
+    import build_lib
+    cand = sorted(set(build_lib.LAST_MODEL_LINES), key=len)
+    nx, xbad = build_crosscheck(cand[len(cand) // 8:], limit=8 if chk.tier == "quick" else 40) if cand else (0, [])
+    chk.notes["extraction_crosscheck"] = "%d scenarios evaluated by vm_compute inside Coq (run_build, plan_ok) and by the extracted driver: %s" % (nx, "equal" if not xbad else xbad[0])
+    if xbad: disagree.append(("-", "EXTRACTION (Extract.v / ocaml/driver.ml vs vm_compute): " + xbad[0], "", ""))
     chk.notes["disagreements_model_vs_impl"] = len(disagree)
     chk.notes["oracle_failures"] = len(oracle_fail)
     if oracle_fail:
@@ -461,6 +467,8 @@ def run_c18(pid, tier):
         src = make_template(g, g.items(), rng.choice(["canon", "pert"]), tuple(uses))
         name = rng.choice(IDENTS) + rng.choice(SUFFIX)
         sib = [(rng.choice(IDENTS) + "%d" % k + rng.choice(SUFFIX), "@()\nS%d" % k) for k in range(rng.randint(1, 4))]
+        # siblings whose generated names end in / begin with the generated name of this template
+        sib += [(pre + name, "@()\nP%d" % k) for k, pre in enumerate(["side", "a_", "zz", "X9"])] + [(name.split(".")[0] + "_more" + "." + name.split(".", 1)[1], "@()\nQ")]
         # (a) alone (b) created after siblings (c) created before siblings (d) deep inside another tree, twice
         sa = [('W', 't/' + name, src), ('R', [('c', 't')])]
         sb = [('W', 't/' + f, c) for f, c in sib] + [('W', 't/' + name, src), ('R', [('c', 't')])]
@@ -481,9 +489,15 @@ def run_c18(pid, tier):
             sb = [('W', 'p/y/' + n1, n1), ('W', 'p/x/' + n2, n2), ('W', 'q/9.bin', 'zero'), ('W', 'q/0.bin', 'nine')] + sb
             p1 = [('s',), ('f', 'p/x/' + n1), ('f', 'p/y/' + n2), ('a', 'q/9.bin', 'to/a.bin'), ('a', 'q/0.bin', 'to/b.bin')] + [('d', x, x.encode()) for x in names[2:]]
             p2 = [('s',), ('f', 'p/x/' + n2), ('f', 'p/y/' + n1), ('a', 'q/0.bin', 'to/a.bin'), ('a', 'q/9.bin', 'to/b.bin')] + [('d', x, x.encode()) for x in names[2:]]
+        else:
+            sa = [('W', 'q/9.bin', 'nine'), ('W', 'q/0.bin', 'zero')] + sa; sb = [('W', 'q/9.bin', 'nine'), ('W', 'q/0.bin', 'zero')] + sb
+        # published names that differ only in the case of a letter, added in either order
+        p1 = p1 + [('a', 'q/9.bin', 'to/Case.bin'), ('a', 'q/0.bin', 'to/case.bin')]; p2 = p2 + [('a', 'q/0.bin', 'to/case.bin'), ('a', 'q/9.bin', 'to/Case.bin')]
         sa[-1] = ('R', [('c', 't')] + p1); sb[-1] = ('R', [('c', 't')] + p2)
         # (e) into an OUT_DIR that already holds a longer (then: a different, equally long) output under the same name
-        se = [('W', 't/' + name, src + "<p>a longer earlier version of this template</p>\n" * 3), ('R', [('c', 't')]), ('W', 't/' + name, src[:-1] + "#" if src else "#"), ('R', [('c', 't')]), ('W', 't/' + name, src), ('R', [('c', 't')])]
+        se = [('W', 't/' + name, src + "<p>a longer earlier version of this template</p>\n" * 3), ('R', [('c', 't')]), ('W', 't/' + name, src[:-1] + "#" if src else "#"), ('R', [('c', 't')]),
+              # the final bytes arrive with the old modification time (mv / cp -p / rsync -t of an older file): older than the generated file
+              ('T', 't/' + name, src), ('R', [('c', 't')])]
         # (f) among siblings that do not parse (ructe warns and carries on), whatever order read_dir lists them in
         bad = [(rng.choice(["a0", "m5", "zz", "B", "_q", "k"]) + "%d" % k + rng.choice(SUFFIX), rng.choice(["@(oops", "@()@if {", "no declaration", "@()@", "@()@* open"])) for k in range(4)]
         sf = [('W', 't/' + f, c) for f, c in bad[:2]] + [('W', 't/' + name, src)] + [('W', 't/' + f, c) for f, c in bad[2:]] + [('R', [('c', 't')])]
@@ -519,7 +533,7 @@ def run_c18(pid, tier):
             if got != want:
                 oracle_fail.append((rs[s0 + 7]["key"], "run %d into one OUT_DIR: the module of directory sub declares %s but the directory holds %s" % (ri + 1, [x.decode() for x in got], present),
                                     mf[-400:].decode("utf8", "replace"))); break
-        chk.count(scen[s0][0][2].encode() if isinstance(scen[s0][0][2], str) else scen[s0][0][2], True)
+        chk.count((name + "\0" + src).encode(), True)
         outs = [tfile(rs[s0], 0, name), tfile(rs[s0 + 1], 0, name), tfile(rs[s0 + 2], 0, name), tfile(rs[s0 + 3], 0, name), tfile(rs[s0 + 3], 1, name), tfile(rs[s0 + 4], 2, name), tfile(rs[s0 + 5], 0, name), tfile(rs_env[k], 0, name)]
         # (g): five copies in five directories, each with its own declaration
         mods, fn = fn_path(name)
@@ -536,6 +550,10 @@ def run_c18(pid, tier):
                 if outs[0] is not None:
                     oracle_fail.append((rs[s0 + 6]["key"], "the template %s placed in directory %r of a tree that holds the same file name in other directories is %s" %
                                         (name, d, "not generated / generated differently" if tf != outs[0] else "not declared in its module"), None)); break
+        for si in (1, 2):
+            tr = snap_files(rs[s0 + si]["runs"][0]["after"]).get(b"templates.rs", b"")
+            if outs[si] is not None and ("mod template_%s;" % fn).encode() not in tr:
+                oracle_fail.append((rs[s0 + si]["key"], "the template %s was compiled among siblings whose names end in / begin with its name, but its module is not declared" % name, tr[-600:].decode("utf8", "replace"))); break
         if any(o is None for o in outs) and not all(o is None for o in outs):
             oracle_fail.append((rs[s0 + 1]["key"], "the template was compiled in one surrounding but not in another", None)); continue
         if len(set(outs)) > 1:
